@@ -101,7 +101,7 @@ func (u *UniAttribute) Decode(is *codec.Reader) error {
 			return err
 		}
 
-		have, ty, err = is.SkipToNoCheck(1, false)
+		have, ty, err = is.SkipToNoCheck(1, true)
 		if err != nil {
 			return err
 		}
